@@ -6,7 +6,7 @@ META = {
     "level": "model_checking",
     "technique": "TLA+ spec of the durable-write sequences of pathdb operations and of reopen (PathDBCrash.tla on PathDBHist.tla) model-checked with TLC over every crash point and freezer loss; crash images (key-value content + all freezer files, unsynced content kept or lost) materialised from a real pathdb.Database at every key-value write and freezer fsync, each reopened in a child process and judged by TLC against PathDBCrashTrace.tla",
     "text": "TLC explores every operation (flatten, commit, rollback, journal) as its sequence of durable writes in the code's order, a crash after every prefix with every surviving freezer prefix above the sync point, and reopen as written in loadJournal/loadLayers/repairHistory, and checks that the database reopens, that the disk layer reads as the state it is labelled with, that the freezer ends at and links up with the disk layer, that the persistent id never runs ahead of synced histories and that rollback from the recovered state works. On the real code the harness records random histories while observing every key-value write and every freezer fsync; each distinct on-disk image is reopened by a child process which projects the freezer before the database touches it, the recovered database, and a rollback to a recoverable root. TLC accepts a probe only if the image's durable state is one the specification allows during that operation (write order and sync points of the real code) and the recovered state and the rollback result are exactly what the specification computes.",
-    "note": "Key-value writes are taken as durable once written (memorydb under a recording wrapper); freezer loss = every fsynced file reverts to its content at its last fsync (plus the no-loss variant); tearing inside freezer files is C24's subject. Unique state roots (counter account). One situation is pending as candidate defect C20-KF1 (spec/state/NOTES.md): a journal left from an earlier clean shutdown is restored after a crash although a rollback has since abandoned its branch (database refuses to open or history/state misaligned); probes in that situation are tagged by harness and spec alike (TODO-KNOWN-FINDING) and their outcome is not judged.",
+    "note": "Key-value writes are taken as durable once written (memorydb under a recording wrapper); freezer loss = every fsynced file reverts to its content at its last fsync (plus the no-loss variant); tearing inside freezer files is C24's subject. Unique state roots (counter account). One situation is recorded as finding C20-F1 (spec/state/NOTES-pathdb-hist.md; tolerated only via known_findings.json): a journal left from an earlier clean shutdown is restored after a crash although a rollback has since abandoned its branch (database refuses to open or history/state misaligned); probes in that situation are tagged by harness and spec alike and their outcome is not judged.",
     "design_ref": "3.3 C20",
 }
 
@@ -17,11 +17,15 @@ def run(ctx):
         ctx.model_check("state/PathDBCrash", cfg, timeout=ctx.pick(3600, 14400), name=os.path.basename(cfg),
                         workers=ctx.pick(4, 8), coverage=ctx.thorough)
     tp = os.path.join(ctx.scratch, "trace.ndjson")
-    s, _ = ctx.drive(drv, ["-mode", "record", "-trace", tp, "-n", ctx.pick(5, 60), "-steps", ctx.pick(14, 18),
-                           "-images", ctx.pick(320, 10000)], name="c20-record", timeout=ctx.pick(5400, 21600))
+    s, _ = ctx.drive(drv, ["-mode", "record", "-trace", tp, "-n", ctx.pick(4, 60), "-steps", ctx.pick(14, 18),
+                           "-images", ctx.pick(200, 10000)], name="c20-record", timeout=ctx.pick(5400, 21600))
+    # Pending genuine defect C20-F1: harness and specification flag the situation independently and must
+    # agree; the outcome of those probes is not judged while known_findings.json lists it as open.
     kf = s.get("counts", {}).get("KF1:stale-journal", 0)
-    if kf:
-        ctx.notes.append("pending candidate defect C20-KF1 (stale journal restored after a crash) reached by %d crash image(s); their outcome is not judged" % kf)
+    if kf and not ctx.known_finding("C20-F1", "%d crash image(s)" % kf):
+        ctx.violation("C20-F1: a journal of an abandoned branch is restored after a crash (%d crash image(s))" % kf,
+                      {"kind": "finding", "id": "C20-F1", "count": kf, "seed": ctx.seed, "tier": ctx.tier,
+                       "replay": "spec/state/replays/C20-KF1-stale-journal-refused.ndjson"})
     ok, consumed, total, r = ctx.validate("state/PathDBCrashTrace", tp, ntraces=s.get("counts", {}).get("Crash", 0),
                                           timeout=ctx.pick(3600, 14400))
     if not ok:
